@@ -256,7 +256,7 @@ pub fn run_sinkfail(out: &mut dyn Write, step: usize) {
 /// structured mutations: every 4-byte aligned-or-not little-endian field position is overwritten by
 /// boundary values; every single byte by 0x00 / 0xff / +1; on the uncompressed binary file, the XML
 /// text and the attribute blob.
-pub fn run_mutate(out: &mut dyn Write, step: usize) {
+pub fn run_mutate(out: &mut dyn Write, step: usize, u32_step: usize) {
     install_hook();
     for (target, data) in corpus() {
         if target == "bin_lz4" || target == "bin_zstd" {
@@ -269,7 +269,7 @@ pub fn run_mutate(out: &mut dyn Write, step: usize) {
                 m[k] = b;
                 variants.push((format!("byte-{}", name), m));
             }
-            if k + 4 <= data.len() {
+            if k + 4 <= data.len() && k % u32_step.max(1) == 0 {
                 let v = u32::from_le_bytes(data[k..k + 4].try_into().unwrap());
                 for (name, nv) in [("0", 0u32), ("1", 1), ("m1", v.wrapping_sub(1)), ("p1", v.wrapping_add(1)), ("i32max", 0x7fff_ffff), ("u32max", 0xffff_ffff)] {
                     let mut m = data.clone();
